@@ -127,7 +127,12 @@ pub fn generate(g: &mut G, _index: u64) -> Scenario {
         6 => {
             // join racing with whatever the others are doing
             if !other_stops {
-                ops.push(Op::Send { h: PRIMARY, id: g.id(), work: vec![Work::Yield(2), Work::CtxStop] });
+                if fam.sc.actors[0].timeout.is_some() {
+                    // (a handler that a timeout may abandon must not be the one that stops the actor)
+                    ops.push(Op::Stop { h: PRIMARY });
+                } else {
+                    ops.push(Op::Send { h: PRIMARY, id: g.id(), work: vec![Work::Yield(2), Work::CtxStop] });
+                }
             }
             ops.push(Op::Join { h: PRIMARY });
             ops.push(Op::Join { h: PRIMARY });
